@@ -412,3 +412,26 @@ def inline(f, defs):
     if f[0] in ('var', 'const'):
         return f
     return rebuild(f, [inline(c, defs) for c in children(f)])
+
+
+def patterns():
+    """common three-operator specification patterns (response, reach-and-stay, ...); beyond F(2) on purpose"""
+    px, py = PX, PY
+    return [
+        ('always', None, ('implies', px, ('eventually', None, py))),
+        ('always', None, ('implies', px, ('eventually', (0, 2), py))),
+        ('eventually', None, ('and', px, ('always', None, py))),
+        ('always', None, ('not', ('always', None, px))),
+        ('always', (0, 2), ('implies', px, ('eventually', (1, 2), py))),
+        ('always', None, ('implies', ('rise', px), ('eventually', (0, 2), py))),
+        ('historically', None, ('implies', px, ('once', (0, 2), py))),
+        ('once', None, ('and', px, ('historically', None, py))),
+        ('historically', None, ('implies', px, ('once', None, py))),
+        ('always', None, ('implies', px, ('until', (0, 2), py, X))),
+        ('eventually', (0, 2), ('and', px, ('next', py))),
+        ('always', None, ('or', ('not', px), ('since', None, py, px))),
+        ('until', None, px, ('always', None, py)),
+        ('since', None, px, ('once', None, py)),
+        ('historically', (0, 2), ('or', px, ('once', (1, 2), ('and', px, py)))),
+        ('always', (1, 2), ('or', ('eventually', (0, 1), px), ('always', (0, 1), py))),
+    ]
